@@ -239,3 +239,49 @@ func bLess(a, b StrV) *smt.Term {
 	}
 	return lt
 }
+
+// bLastIndex: last offset of sub in s as BV64 (-1 when absent).
+func bLastIndex(s, sub StrV) *smt.Term {
+	var r *smt.Term = smt.BVC(64, ^uint64(0))
+	for o := 0; o <= len(s.Bytes); o++ {
+		r = smt.Ite(bMatchAt(s, sub, lc(o)), smt.BVC(64, uint64(o)), r)
+	}
+	return r
+}
+
+// bCountByte: number of occurrences of byte c.
+func bCountByte(s StrV, c *smt.Term) *smt.Term {
+	var r *smt.Term = smt.BVC(64, 0)
+	ls := bLen(s)
+	for i := 0; i < len(s.Bytes); i++ {
+		hit := smt.And(smt.BVUlt(lc(i), ls), smt.Eq(s.Bytes[i], c))
+		r = smt.BVAdd(r, smt.Ite(hit, smt.BVC(64, 1), smt.BVC(64, 0)))
+	}
+	return r
+}
+
+// bIte: if-then-else on strings without forking.
+func bIte(c *smt.Term, a, b StrV) StrV {
+	if c.IsTrue() {
+		return a
+	}
+	if c.IsFalse() {
+		return b
+	}
+	n := len(a.Bytes)
+	if len(b.Bytes) > n {
+		n = len(b.Bytes)
+	}
+	out := make([]*smt.Term, n)
+	for i := 0; i < n; i++ {
+		var x, y *smt.Term = smt.BVC(8, 0), smt.BVC(8, 0)
+		if i < len(a.Bytes) {
+			x = a.Bytes[i]
+		}
+		if i < len(b.Bytes) {
+			y = b.Bytes[i]
+		}
+		out[i] = smt.Ite(c, x, y)
+	}
+	return StrV{IsB: true, Bytes: out, Len: smt.Ite(c, bLen(a), bLen(b))}
+}
